@@ -31,11 +31,12 @@ TOL64 = Fraction(1, 10**9)
 TOL32 = Fraction(1, 10**4)
 THEOREMS = {
     "ops": ["c18_accumulate_pooled_sums", "c18_stats_partition_order_invariant", "c18_store_is_pooled_mean_var",
-            "c18_normalised_zero_mean_unit_var"],
-    "norm": ["c18_own_stats_when_none", "c18_normalised_zero_mean_unit_var"],
-    "deltas": ["c18_delta_line_eq_regression", "c18_feat_deltas_layout"],
-    "return": ["c18_return_recursion", "c18_return_eq_spec"],
-    "cmd": ["c18_cmd_group_stats"],
+            "c18_store_needs_two_frames", "c18_normalised_zero_mean_unit_var", "c18_normalisation_formula"],
+    "norm": ["c18_own_stats_when_none", "c18_own_stats_normalised", "c18_normalised_given_stats", "c18_normalisation_formula"],
+    "deltas": ["c18_padding_is_extension", "c18_delta_line_eq_regression", "c18_feat_deltas_layout",
+               "c18_feat_deltas_defined", "c18_feat_deltas_errors"],
+    "return": ["c18_return_recursion", "c18_return_eq_spec", "c18_return_error_iff"],
+    "cmd": ["c18_cmd_directory_stats", "c18_store_is_pooled_mean_var"],
 }
 
 
@@ -255,8 +256,17 @@ def ops_spec_term(case, out):
     if not (finite(last[-1][1]) and finite(last[-1][2])):
         return "false"
     xs = cl([lit_case_tensor(x, case["scale"], DT[case["dtype"]]) for x in seen[0]])
-    return (f"spec_stats_okb {cz(case['dim'])} {xs} {cb(seen[1])} {cq(TOL64)} "
-            f"{lit_qs(fr_list(last[-1][1]))} {lit_qs(fr_list(last[-1][2]))}")
+    parts = [f"spec_stats_okb {cz(case['dim'])} {xs} {cb(seen[1])} {cq(TOL64)} "
+             f"{lit_qs(fr_list(last[-1][1]))} {lit_qs(fr_list(last[-1][2]))}"]
+    # the documented formula on every normalised tensor
+    accs = [op for op in case["ops"] if op["op"] == "acc"]
+    for op, f in zip(accs, out["fwd"] or []):
+        if f[0] != "ok":
+            continue
+        parts.append(f"spec_norm_formula_okb {lit_case_tensor(op['x'], case['scale'], DT[case['dtype']])} {cz(case['dim'])} "
+                     f"{lit_qs(fr_list(last[-1][1]))} {lit_qs(fr_list(last[-1][2]))} {cq(Fraction(case['eps']))} "
+                     f"{cq(_fwd_tol(case, out))} {lit_impl_tensor(f[1])}")
+    return "(" + " && ".join(parts) + ")"
 
 
 def ops_metamorphic(case, out, rng_seed):
@@ -385,7 +395,14 @@ def norm_term(case, out):
 
 def norm_spec_term(case, out):
     """own statistics: the output has zero mean and (where the variance is positive) unit variance"""
-    if out[0] != "ok" or case["mean"] is not None or case["std"] is not None:
+    if out[0] != "ok":
+        return None
+    if case["mean"] is not None and case["std"] is not None:
+        mx = max([1.0] + [abs(v) for v in out[1]["data"]])
+        return (f"spec_norm_formula_okb {lit_case_tensor(case['x'], case['scale'])} {cz(case['dim'])} "
+                f"{lit_qs([Fraction(i, case['scale']) for i in case['mean']])} {lit_qs([Fraction(i, case['scale']) for i in case['std']])} "
+                f"{cq(Fraction(case['eps']))} {cq(TOL64 * Fraction(mx))} {lit_impl_tensor(out[1])}")
+    if case["mean"] is not None or case["std"] is not None:
         return None
     sig = norm_sigma(case)
     degenerate = cl([cb(s < max(case["eps"], 1e-6)) for s in sig])
